@@ -19,8 +19,11 @@ import time
 VERIF = os.path.dirname(os.path.dirname(os.path.abspath(__file__)))
 REPO = os.environ.get('VERIF_REPO', '/repo')
 SPEC = os.path.join(VERIF, 'spec')
-EVID = os.path.join(VERIF, 'evidence')
-REPLAYS = os.path.join(VERIF, 'replays')
+# VERIF_OUT redirects evidence and replay files (used when running the checks
+# against a seeded mutant in a scratch worktree, so the real evidence stays)
+_OUT = os.environ.get('VERIF_OUT', VERIF)
+EVID = os.path.join(_OUT, 'evidence')
+REPLAYS = os.path.join(_OUT, 'replays')
 TLA_JAR = '/opt/veriftools/tla/tla2tools.jar'
 TLA_CP = f'{TLA_JAR}:/opt/veriftools/tla/CommunityModules-deps.jar'
 NCPU = os.cpu_count() or 4
